@@ -30,7 +30,7 @@ Inductive source := SrcNone | SrcInternal (port : N) | SrcIp (ip port : N).
 Inductive akind :=
 | AKNone                 (* no preference *)
 | AKDoNot                (* TorState.DO_NOT_ATTACH *)
-| AKNotCirc              (* something that is not a Circuit *)
+| AKNotCirc (v : N)      (* something that is not a Circuit: 0 a string, 1..6 the falsy values False 0 '' [] {} () *)
 | AKRaise                (* raises / its Deferred fails *)
 | AKForeign              (* a Circuit object this TorState does not know (id 9000) *)
 | AKCirc (oid : nat).    (* the oid-th circuit object (creation order), in whatever state it is now *)
@@ -240,7 +240,7 @@ Definition decide (t : tor) (a : akind) : decision :=
   match a with
   | AKNone => DTorChooses
   | AKDoNot => DNothing
-  | AKNotCirc | AKRaise | AKForeign => DInvalid
+  | AKNotCirc _ | AKRaise | AKForeign => DInvalid
   | AKCirc oid =>
       match nth_error (incs t) oid with
       | Some i => if cstatus_eqb (i_st i) CBuilt then DAttach (i_cid i) else DInvalid
@@ -415,7 +415,9 @@ Definition wf (ops : list op) : bool := wf_from tor0 ops.
 Record reg := { r_ip : N; r_port : N; r_oid : nat; r_k : nat }.
 Record cn := { n_k : nat; n_oid : nat; n_started : bool; n_local : bool; n_socks : option bool;
                n_att : option bool;   (* Some true: its stream was attached to its circuit; Some false: refused *)
-               n_done : bool }.
+               n_done : bool;
+               n_refused : bool;      (* its connect() met another attacher in the slot *)
+               n_r4 : bool            (* Tor refused a command while this connection had not started yet *) }.
 Record chk := { t : tor; regs : list reg; cns : list cn; expect : list cmd }.
 
 Definition chk0 : chk := {| t := tor0; regs := []; cns := []; expect := [] |}.
@@ -438,22 +440,42 @@ Definition upd_cn (c : cn) (l : list cn) : list cn :=
   map (fun x => if Nat.eqb (n_k x) (n_k c) then c else x) l.
 
 Definition cn_started (c : cn) : cn :=
-  {| n_k := n_k c; n_oid := n_oid c; n_started := true; n_local := n_local c; n_socks := n_socks c; n_att := n_att c; n_done := n_done c |}.
+  {| n_k := n_k c; n_oid := n_oid c; n_started := true; n_local := n_local c; n_socks := n_socks c; n_att := n_att c; n_done := n_done c; n_refused := n_refused c; n_r4 := n_r4 c |}.
 Definition cn_local (c : cn) : cn :=
-  {| n_k := n_k c; n_oid := n_oid c; n_started := n_started c; n_local := true; n_socks := n_socks c; n_att := n_att c; n_done := n_done c |}.
+  {| n_k := n_k c; n_oid := n_oid c; n_started := n_started c; n_local := true; n_socks := n_socks c; n_att := n_att c; n_done := n_done c; n_refused := n_refused c; n_r4 := n_r4 c |}.
 Definition cn_socks (c : cn) (ok : bool) : cn :=
-  {| n_k := n_k c; n_oid := n_oid c; n_started := n_started c; n_local := n_local c; n_socks := Some ok; n_att := n_att c; n_done := n_done c |}.
+  {| n_k := n_k c; n_oid := n_oid c; n_started := n_started c; n_local := n_local c; n_socks := Some ok; n_att := n_att c; n_done := n_done c; n_refused := n_refused c; n_r4 := n_r4 c |}.
 Definition cn_att (c : cn) (ok : bool) : cn :=
-  {| n_k := n_k c; n_oid := n_oid c; n_started := n_started c; n_local := n_local c; n_socks := n_socks c; n_att := Some ok; n_done := n_done c |}.
+  {| n_k := n_k c; n_oid := n_oid c; n_started := n_started c; n_local := n_local c; n_socks := n_socks c; n_att := Some ok; n_done := n_done c; n_refused := n_refused c; n_r4 := n_r4 c |}.
+Definition cn_r4 (c : cn) : cn :=
+  if negb (n_started c) && negb (n_done c) then
+    {| n_k := n_k c; n_oid := n_oid c; n_started := n_started c; n_local := n_local c; n_socks := n_socks c; n_att := n_att c;
+       n_done := n_done c; n_refused := n_refused c; n_r4 := true |}
+  else c.
 Definition cn_done (c : cn) : cn :=
-  {| n_k := n_k c; n_oid := n_oid c; n_started := n_started c; n_local := n_local c; n_socks := n_socks c; n_att := n_att c; n_done := true |}.
+  {| n_k := n_k c; n_oid := n_oid c; n_started := n_started c; n_local := n_local c; n_socks := n_socks c; n_att := n_att c; n_done := true; n_refused := n_refused c; n_r4 := n_r4 c |}.
 
 Definition both_ok (c : cn) : bool :=
   match n_att c, n_socks c with Some true, Some true => true | _, _ => false end.
 
 (* the connection events of an operation, in the order they happened:
    EStarted k: a known connection, once, and only through a circuit that has been BUILT;
-   EConnDone k r: once per connection; success only when its stream went to its circuit and SOCKS said yes *)
+   EConnDone k r: once per connection; success only when its stream went to its circuit and SOCKS said yes;
+   a failure only for a reason the property allows: another attacher is installed (RuntimeError), its circuit
+   turned out unusable when its stream appeared (RuntimeError), its circuit failed / closed before it was ever
+   BUILT (CircuitBuildFailedError / CircuitBuildClosedError), Tor refused a command before the connection
+   started (TorProtocolError), the SOCKS request was refused (SocksError) -- never merely because another
+   via-circuit connect() is in progress *)
+Definition fail_ok (tt : tor) (c : cn) (kind : N) : bool :=
+  if kind =? 1 then n_refused c || match n_att c with Some false => true | _ => false end
+  else if kind =? 2 then match nth_error (incs tt) (n_oid c) with
+                         | Some i => cstatus_eqb (i_st i) CFailed && negb (i_built i) | None => false end
+  else if kind =? 3 then match nth_error (incs tt) (n_oid c) with
+                         | Some i => cstatus_eqb (i_st i) CClosed && negb (i_built i) | None => false end
+  else if kind =? 4 then n_r4 c && negb (n_started c)
+  else if kind =? 5 then match n_socks c with Some false => true | _ => false end
+  else false.
+
 Definition conn_event (tt : tor) (l : list cn) (e : ev) : option (list cn) :=
   match e with
   | EStarted k =>
@@ -467,7 +489,7 @@ Definition conn_event (tt : tor) (l : list cn) (e : ev) : option (list cn) :=
       match find_cn k l with
       | Some c =>
           if n_done c then None else
-          let fine := match r with ROk => both_ok c | RFail _ => negb (both_ok c) end in
+          let fine := match r with ROk => both_ok c | RFail kind => negb (both_ok c) && fail_ok tt c kind end in
           if fine then Some (upd_cn (cn_done c) l) else None
       | None => None
       end
@@ -577,7 +599,8 @@ Definition chk_op (k : chk) (o : op) (es : list ev) : option chk :=
                              (fun l => match l with [_] => true | _ => false end) []
       end
   | OConnect kk oid =>
-      let c := {| n_k := kk; n_oid := oid; n_started := false; n_local := false; n_socks := None; n_att := None; n_done := false |} in
+      let c := {| n_k := kk; n_oid := oid; n_started := false; n_local := false; n_socks := None; n_att := None; n_done := false;
+                  n_refused := match conn_outcome (t k) with ConnRefused => true | _ => false end; n_r4 := false |} in
       match conn_outcome (t k) with
       | ConnInstalls => finish tt (regs k) (cns k ++ [c]) (expect k ++ [CLeave 1]) es [] (exactly 0) none_raised []
       | ConnReady => finish tt (regs k) (cns k ++ [c]) (expect k) es [] (exactly 0) none_raised []
@@ -604,7 +627,8 @@ Definition chk_op (k : chk) (o : op) (es : list ev) : option chk :=
       end
   | OReply ok =>
       (* Tor refusing a command may be reported; accepting one is not *)
-      finish tt (regs k) (cns k) (expect k) es [] (fun n => if ok then Nat.eqb n 0 else Nat.leb n 1) none_raised []
+      finish tt (regs k) (if ok then cns k else map cn_r4 (cns k)) (expect k) es []
+             (fun n => if ok then Nat.eqb n 0 else Nat.leb n 1) none_raised []
   | OFlush =>
       match finish tt (regs k) (cns k) (expect k) es [] (exactly 0) none_raised [] with
       | Some r => match expect r with [] => Some r | _ => None end
